@@ -78,6 +78,7 @@ def write(prop, tier, seed, ded, nat, reproduced, n_viol, undecided, checker_err
     }
     if level == "proof" and (obligations == 0 or discharged != obligations):
         ev["level"] = "other"  # never claim proof when something is open
-    os.makedirs(os.path.join(VERIF, "evidence"), exist_ok=True)
-    with open(os.path.join(VERIF, "evidence", f"{prop}.json"), "w") as f:
+    evdir = os.environ.get("VERIF_EVIDENCE_DIR") or os.path.join(VERIF, "evidence")
+    os.makedirs(evdir, exist_ok=True)
+    with open(os.path.join(evdir, f"{prop}.json"), "w") as f:
         json.dump(ev, f, indent=1, default=str)
